@@ -2,10 +2,11 @@ package main
 
 import (
 	"fmt"
-	"math/rand"
 	"go/constant"
 	"go/token"
 	"go/types"
+	"math/rand"
+	"os"
 	"sort"
 	"strings"
 
@@ -50,13 +51,14 @@ type inputRec struct {
 }
 
 type Interp struct {
-	prog    *ssa.Program
-	ts      *TermStore
-	sol     *Solver
-	globals map[*ssa.Global]*Cell
-	fnInfos map[*ssa.Function]*fnInfo
-	inited  map[*ssa.Package]bool
-	builders map[*Cell]*Value
+	prog       *ssa.Program
+	ts         *TermStore
+	sol        *Solver
+	sol2, sol3 *Solver
+	globals    map[*ssa.Global]*Cell
+	fnInfos    map[*ssa.Function]*fnInfo
+	inited     map[*ssa.Package]bool
+	builders   map[*Cell]*Value
 
 	logging  bool
 	undo     []undoRec
@@ -64,48 +66,48 @@ type Interp struct {
 	nextAddr int
 
 	// per path
-	pc        []*Term
-	trace     []decisionRec
-	prefix    []decisionRec
-	steps     int
-	fuel      int
-	depth     int
-	inputs    []inputRec
-	inputSeen map[string]int
-	events    []string
-	reached   map[string]bool
-	stdout    []Value
-	atomSeq   int
-	atomLens  map[int]*Term
-	orderVars map[string]*Term
-	mapOrder  int
+	pc          []*Term
+	trace       []decisionRec
+	prefix      []decisionRec
+	steps       int
+	fuel        int
+	depth       int
+	inputs      []inputRec
+	inputSeen   map[string]int
+	events      []string
+	reached     map[string]bool
+	stdout      []Value
+	atomSeq     int
+	atomLens    map[int]*Term
+	orderVars   map[string]*Term
+	mapOrder    int
 	feasUnknown int
-	curFrame  *Frame
+	curFrame    *Frame
 
 	// per run
-	notes     map[string]bool
-	thorough  bool
-	funcsRun  map[*ssa.Function]int
-	stats     *RunStats
-	cfg       *Config
-	pathHook  func(ev string)
-	results   *harnessResult
-	harness   string
-	stuFns    map[string]*Term // uninterpreted function applications
-	regions   map[string]*Term
-	model     map[string]uint64 // a model of the current pc (nil if none known)
-	modelHits int
-	altModel  map[string]uint64
-	f2iSrc    map[int]*Term
-	pcSet     map[int]bool
-	fixedLog  []WitnessChoice
-	lenient   int
-	synHits   int
-	setups    map[string]Value
-	rng        *rand.Rand
+	notes                map[string]bool
+	thorough             bool
+	funcsRun             map[*ssa.Function]int
+	stats                *RunStats
+	cfg                  *Config
+	pathHook             func(ev string)
+	results              *harnessResult
+	harness              string
+	stuFns               map[string]*Term // uninterpreted function applications
+	regions              map[string]*Term
+	model                map[string]uint64 // a model of the current pc (nil if none known)
+	modelHits            int
+	altModel             map[string]uint64
+	f2iSrc               map[int]*Term
+	pcSet                map[int]bool
+	fixedLog             []WitnessChoice
+	lenient              int
+	synHits              int
+	setups               map[string]Value
+	rng                  *rand.Rand
 	guessHits, guessMiss int
-	setupCells map[*Cell]bool
-	setupMaps  map[*Map]bool
+	setupCells           map[*Cell]bool
+	setupMaps            map[*Map]bool
 }
 
 func newInterp(prog *ssa.Program, cfg *Config) *Interp {
@@ -113,7 +115,11 @@ func newInterp(prog *ssa.Program, cfg *Config) *Interp {
 		fnInfos: map[*ssa.Function]*fnInfo{}, inited: map[*ssa.Package]bool{},
 		setups: map[string]Value{}, notes: map[string]bool{}, funcsRun: map[*ssa.Function]int{}, cfg: cfg,
 		builders: map[*Cell]*Value{}}
-	in.sol = newSolver(cfg.Solver, cfg.TimeoutMs)
+	fast := cfg.TimeoutMs
+	if fast > 2500 {
+		fast = 2500
+	}
+	in.sol = newSolver(cfg.Solver, fast, false)
 	in.resetPath()
 	return in
 }
@@ -160,8 +166,8 @@ var interpFuncs = map[string]bool{
 	"(time.Time).Sub": true, "(time.Time).Compare": true, "time.subMono": true, "(time.Duration).Seconds": true,
 	"(*time.Time).setLoc": true, "(*time.Time).stripMono": true, "(*time.Time).addSec": true, "(*time.Time).mono": true,
 	"(*time.Time).setMono": true,
-	"strconv.Itoa": true,
-	"math.IsNaN": true, "math.IsInf": true, "math.Inf": true, "math.NaN": true, "math.Signbit": true,
+	"strconv.Itoa":         true,
+	"math.IsNaN":           true, "math.IsInf": true, "math.Inf": true, "math.NaN": true, "math.Signbit": true,
 	"sort.Strings": false,
 }
 
@@ -740,8 +746,31 @@ func (in *Interp) check(extra *Term, wantModel bool) Result {
 	if extra != nil {
 		as = append(as, extra)
 	}
-	return in.sol.Check(as, wantModel, nil)
+	r := in.sol.Check(as, wantModel, nil)
+	if r.Res == "unknown" {
+		// portfolio: the same query as a fresh problem with the full time-out,
+		// then the other solver
+		if in.sol2 == nil {
+			in.sol2 = newSolver(in.cfg.Solver, in.cfg.TimeoutMs, true)
+		}
+		r = in.sol2.Check(as, wantModel, nil)
+		if r.Res == "unknown" && in.cfg.Solver != "cvc5" {
+			if in.sol3 == nil {
+				in.sol3 = newSolver("cvc5", in.cfg.TimeoutMs, true)
+			}
+			r = in.sol3.Check(as, wantModel, nil)
+		}
+	}
+	if r.Res == "unknown" {
+		if dir := os.Getenv("SYMGO_QLOG"); dir != "" {
+			qlogSeq++
+			os.WriteFile(fmt.Sprintf("%s/q%d_%d.smt2", dir, os.Getpid(), qlogSeq), []byte(standaloneSMT(as)), 0o644)
+		}
+	}
+	return r
 }
+
+var qlogSeq int
 
 // decide branches on a symbolic condition.
 func (in *Interp) decide(c *Term) bool {
